@@ -105,7 +105,7 @@ pub fn key_num(ip: IpAddr, port: u16) -> String {
     }
 }
 
-pub fn run_history(h: &History, seed: u64) -> String {
+pub fn run_history(h: &History, seed: u64, items: &mut Vec<String>) {
     let mut config = Config::default();
     config.protocol.max_peers = h.max_peers;
     config.protocol.max_scrape_torrents = h.max_scrape;
@@ -113,7 +113,6 @@ pub fn run_history(h: &History, seed: u64) -> String {
     let access_list: Arc<AccessListArcSwap> = Arc::new(AccessListArcSwap::default());
     let start = ServerStartInstant::new();
     let mut rng = SmallRng::seed_from_u64(seed);
-    let mut items: Vec<String> = Vec::new();
     for op in &h.ops {
         match op {
             Op::Announce { src, hash, port, ev, left, until, want } => {
@@ -216,25 +215,16 @@ pub fn run_history(h: &History, seed: u64) -> String {
             }
         }
     }
-    format!("({}, {}, {})", cq::nat(h.max_peers), cq::nat(h.max_scrape), cq::list(&items))
 }
 
 pub fn run(args: &Args) {
-    let mut n_ops = 0usize;
-    for idx in 0..args.count {
-        if let Some(only) = args.only {
-            if only != idx {
-                continue;
-            }
-        }
-        let mut rng = Prng::new(args.seed ^ ((idx as u64) << 20) ^ 0x477);
-        let mut h = gen_history(&mut rng);
-        if let Some(keep) = &args.keep {
+    crate::drive(args, 0x477, |rng, keep, case_seed, header, items| {
+        let mut h = gen_history(rng);
+        if let Some(keep) = keep {
             h.ops = h.ops.iter().enumerate().filter(|(i, _)| keep.contains(i)).map(|(_, o)| o.clone()).collect();
         }
-        n_ops += h.ops.len();
-        let term = run_history(&h, args.seed.wrapping_add(idx as u64));
-        println!("CASE {} {} {}", idx, h.ops.len(), term);
-    }
-    println!("STAT {{\"ops\": {}}}", n_ops);
+        *header = format!("{}, {}", cq::nat(h.max_peers), cq::nat(h.max_scrape));
+        run_history(&h, case_seed, items);
+        aquatic_common::verif::set_mock_seconds(None);
+    });
 }
